@@ -592,6 +592,42 @@ func SpecPred(p *core.Prog, r *core.Report) {
 	r.Floor("spec_message_categories", 15)
 	r.Count("spec_predicate_sites", n)
 	r.Floor("spec_predicate_sites", 18)
+	// operations without an id do not take part in the uniqueness rule: the count of an id is only incremented for
+	// a non-empty id (counted, two anonymous operations would be "duplicates" of one another)
+	if f := p.Func("(*SpecValidator).validateDuplicateOperationIDs"); f != nil {
+		nUpd, bad := 0, ""
+		core.EachInstr(f, func(i ssa.Instruction) {
+			mu, ok := i.(*ssa.MapUpdate)
+			if !ok {
+				return
+			}
+			nUpd++
+			nonEmpty := false
+			for _, cd := range core.CondsAt(mu.Block()) {
+				bo, isBo := cd.Value.(*ssa.BinOp)
+				if !isBo || (bo.Op != token.EQL && bo.Op != token.NEQ) {
+					continue
+				}
+				var other ssa.Value
+				if bo.X == mu.Key {
+					other = bo.Y
+				} else if bo.Y == mu.Key {
+					other = bo.X
+				}
+				if k, isK := other.(*ssa.Const); isK && k.Value != nil && k.Value.ExactString() == `""` && (bo.Op == token.NEQ) == cd.Sense {
+					nonEmpty = true
+				}
+			}
+			if !nonEmpty {
+				bad = p.Pos(mu.Pos())
+			}
+		})
+		if nUpd > 0 && bad == "" {
+			r.OK(rule, "validateDuplicateOperationIDs:only-named", p.Pos(f.Pos()), "only non-empty operation ids are counted")
+		} else if nUpd > 0 {
+			r.Bad(rule, "validateDuplicateOperationIDs:only-named", bad, "the empty operation id is counted like any other: two operations without an id make the document invalid")
+		}
+	}
 	// … in every response: the list of responses the rule walks is fed with the default response and with each
 	// response of the status-code map
 	if f := p.Func("(*SpecValidator).validateItems"); f != nil {
